@@ -248,7 +248,9 @@ impl Transaction {
             return Err(Error::from(ErrorKind::InvalidInput));
         }
 
-        let available_balance = wallet.get_available_balance();
+        // slips that are about to be rebroadcast are skipped by generate_slips, so they
+        // cannot fund this transaction
+        let available_balance = wallet.get_spendable_balance(latest_block_id, genesis_period);
 
         if with_fee > available_balance {
             with_fee = 0;
